@@ -110,17 +110,24 @@ def write_apis_fill_cache(ctx, pfx):
                    % show(wrec)[:100], key='RF-SIB|write_fills_cache|%s' % b.path)
             continue
         # the put is skipped only when there is no cache
-        side = [v['block'] for v in variant_edges(b, lambda x: access_path(x) == 'self.cache')]
+        # (only the `None` edge of the switch on self.cache is a legitimate bypass, not everything below the switch)
+        side_e = []
+        for v in variant_edges(b, lambda x: access_path(x) == 'self.cache'):
+            tgt = dict(v['edges'])
+            for val, nm in v['names'].items():
+                tgt.setdefault(nm, v['else'])
+            if 'None' in tgt:
+                side_e.append((v['block'], tgt['None']))
         g = q_guard_of(b, ws[0][0], DB_WRITES)
         wblk = ws[0][0]['pos'][0]
         pblks = [p[0]['pos'][0] for p in same]
         if any(b.blk_dominates(pb, wblk) or pb in b.reach_avoiding([0], avoid_blocks=[wblk]) for pb in pblks):
             # put happens before the write (ordering judged by cache_after_db): only require that it cannot be skipped
-            ks = b.exits((0, 0), avoid_blocks=pblks + side + [wblk])
+            ks = b.exits((0, 0), avoid_blocks=pblks + [wblk], avoid_edges=side_e)
             ok = True
         else:
             start = (g['pass'][0][1], 0) if g else (0, 0)
-            ks = b.exits(start, avoid_blocks=pblks + side)
+            ks = b.exits(start, avoid_blocks=pblks, avoid_edges=side_e)
             ok = not (ks - {'Err', 'Diverge'})
         ctx.ob(oid, 'RF-SIB', ok, b.path, '%s:%s' % (b.file, same[0][0]['line']),
                'writes %s to the database and the same records to the cache' % show(wrec)[:80] if ok else
